@@ -86,6 +86,25 @@ CHECKS = {
         note=TRUSTED + " Arguments are ints and parameters are unannotated; keywords range over parameter names + one foreign "
         "name; the existential clause enumerates expansions up to max(4, number of parameters).",
     ),
+    "C06": dict(
+        technique="TLA+ spec Calls.tla (EXTENDS Assign/Values): a fixed library of 70 annotated functions (data of the spec; the real "
+        "Python library is generated from TLC's JSON) x every binding call over 15 literal arguments (<=3 args, <=2 keywords, "
+        "plain and *(..)/**{..} forms); ImplCall = transcription of Signature.check_call_with_bound_args (pass 1 bounds via "
+        "can_assign with type variables, typevar.solve, default return, return substitution, pass 2, duplicate-diagnostic "
+        "suppression, constructor/bound-method signatures) and of TypeObject's protocol cache over call sessions; Ref = Member of "
+        "the runtime objects in the declared types under some admissible type-variable assignment, CPython binding, body model. "
+        "Exhaustive TLC + simulation; every TLC case realised, checked by the real visitor, really executed, and adjudicated by "
+        "TLC (CallsTrace.tla: oracle models = real CPython, property, drift)",
+        text="Model checking: for every library function x literal argument tuple (quick 8.7e3 / thorough 1.6e5 states) the model "
+        "is diagnosed iff some argument does not belong to its declared type (for generics: under no admissible type-variable "
+        "value), the inferred type contains the modelled result, and the inferred solution fits every argument; bound to the "
+        "code by replaying every case (2.6e3 quick / 5.7e4 thorough + simulation) through the real checker and real CPython, "
+        "each observation judged by TLC, drift 0; one named deviation class (protocol-cache-ignores-type-arguments).",
+        design="2/C06",
+        note=TRUSTED + " The result clause is judged on calls whose arguments fit. Candidates for type variables in the oracle: "
+        "object, bound, constraints, int/str/bool/float/A/B. Sessions need a fresh Checker; all other calls share one Checker "
+        "per process.",
+    ),
     "C07": dict(
         technique="TLA+ state machine SigCompat.tla (Signature.can_assign incl. *args/**kwargs absorption) vs behavioural inclusion "
         "stated with the C05 oracle; pairs replayed through KnownValue(f).can_assign(KnownValue(g)) and the visitor (Literal[f] "
